@@ -1921,6 +1921,55 @@ func ringSignRule(p *core.Program, r *core.Report, rule string) {
 			}
 			return
 		}
+		// the sign is the direction predicate compared with a boolean role flag (`ccw == isHole`): at each caller the
+		// flag is a constant, which fixes the polarity, and the ring handed over fixes the role
+		if bo, ok := sign.(*ssa.BinOp); ok && (bo.Op == token.EQL || bo.Op == token.NEQ) && depth < 4 {
+			pred, flag := bo.X, bo.Y
+			if paramIdx(fn, pred) >= 0 {
+				pred, flag = flag, pred
+			}
+			pneg := false
+			for {
+				if u, isU := pred.(*ssa.UnOp); isU && u.Op == token.NOT {
+					pred, pneg = u.X, !pneg
+					continue
+				}
+				break
+			}
+			call, isCall := pred.(*ssa.Call)
+			fi, ri := paramIdx(fn, flag), paramIdx(fn, ring)
+			if isCall && call.Call.StaticCallee() != nil && call.Call.StaticCallee().Name() == "IsRingCounterClockwise" && len(call.Call.Args) == 2 && fi >= 0 && ri >= 0 {
+				cs := callersOf(fn)
+				for _, c := range cs {
+					k, isK := c.Common().Args[fi].(*ssa.Const)
+					if !isK || k.Value == nil || k.Value.Kind() != constant.Bool {
+						n++
+						r.Bad(rule, site+"<-"+short(c.Parent())+"/unresolved", p.Pos(c.Pos()), "the role flag compared with the ring-direction predicate is not a constant at this call")
+						continue
+					}
+					b := constant.BoolVal(k.Value)
+					// (ccw == true) = ccw, (ccw == false) = !ccw, (ccw != true) = !ccw, (ccw != false) = ccw
+					effNeg := neg != pneg != ((bo.Op == token.EQL) != b)
+					for _, ro := range role(c.Parent(), c.Common().Args[ri], 0) {
+						n++
+						key := fmt.Sprintf("%s<-%s/%s", site, short(c.Parent()), ro)
+						bad := ""
+						switch {
+						case unspill(call.Call.Args[1]) != ring:
+							bad = "the triangle's sign is IsRingCounterClockwise of " + call.Call.Args[1].String() + ", not of the ring being added (" + ring.String() + "): a ring is signed by another ring's direction"
+						case ro == "shell" && !effNeg:
+							bad = "the shell passes the plain ring-direction predicate: shells must pass its negation"
+						case ro == "hole" && effNeg:
+							bad = "a hole passes the negated ring-direction predicate (same polarity as the shell): holes would add instead of subtract"
+						}
+						r.Check(bad == "", rule, key, p.Pos(call.Pos()), true, "signed by its own direction, polarity of a "+ro, bad)
+					}
+				}
+				if len(cs) > 0 {
+					return
+				}
+			}
+		}
 		si, ri := paramIdx(fn, sign), paramIdx(fn, ring)
 		if si >= 0 && ri >= 0 && depth < 4 {
 			cs := callersOf(fn)
